@@ -180,4 +180,32 @@ def streams(tier, rng, P, only=None, cases=None):
         return None
     s4 = Stream("sysexev", cases if (cases and only == "sysexev") else mk_se(), lambda c, st, f: ["sysexdata %d %s" % (c["flag"], c["vals"])], se_judge,
                 lambda c, i, m: i[1].get("data") if i[0] == "ok" else None, "Event::sysex vs the literal model")
-    return [s for s in (s1, s2, s3, s4) if only in (None, s.name)]
+    # ---- a program number with its bank, re-issued at a play-from point: the bank select still precedes the program change
+    from ..smfpy import smf_events
+    def mk_pb():
+        out = []
+        for i in range(200 if big else 40):
+            prog = rng.randint(1, 128); msb = rng.randint(0, 127); lsb = rng.randint(0, 127)
+            v = rng.choice(["@%d,%d,%d", "Voice(%d,%d,%d)", "VOICE(%d,%d,%d)"]) % (prog, msb, lsb)
+            mid = rng.choice(["", "y7,100 ", "c d ", "y11,90 y10,64 "])
+            pf = rng.choice(["r1 PlayFrom(2:1:0) c", "r1 ? c d", "l1 c PlayFromHere e", "r2 r2 PlayFrom(1:4:0) g"])
+            src = "%s %s%s" % (v, mid, pf)
+            out.append(dict(req="run " + hx(src), src=src, show=src, prog=prog - 1, msb=msb, lsb=lsb, key="pb%d" % i))
+        return out
+    def pb_judge(c, impl, m):
+        st, f = impl
+        if st != "ok": return ("violation", "program did not compile normally: " + st)
+        trk = smf_events(f.get("bin", "~"))
+        if not trk: return ("violation", "no track in the file")
+        evs = trk[0]
+        pcs = [k for k, e in enumerate(evs) if e[1] == "pc"]
+        if not pcs: return ("violation", "the program change is not re-issued at the play-from point")
+        k = pcs[0]
+        before = [(e[2][1], e[3]) for e in evs[:k] if e[1] == "cc"]
+        if (0, c["msb"]) not in before or (32, c["lsb"]) not in before:
+            return ("violation", "the re-issued program change is not preceded by its bank select (controllers before it: %s)" % before[:6])
+        if evs[k][2][1] != c["prog"]: return ("violation", "re-issued program %d, written %d" % (evs[k][2][1], c["prog"]))
+        return None
+    s5 = Stream("pfbank", cases if (cases and only == "pfbank") else mk_pb(), lambda c, st, f: [], pb_judge, lambda c, i, m: i[1].get("bin") if i[0] == "ok" else None,
+                "bank select before the program change re-issued at a play-from point")
+    return [s for s in (s1, s2, s3, s4, s5) if only in (None, s.name)]
